@@ -722,6 +722,104 @@ pub struct DI7 {
 }
 observe_struct!(DI7 { attrs, p });
 
+fn fr5_then(v: FR5) -> darling::Result<FR5> {
+    cthen::<4510, FR5>(v)
+}
+
+#[derive(FromField)]
+#[darling(attributes(a), from_ident, and_then = fr5_then, allow_unknown_fields)]
+pub struct FR5 {
+    ident: Option<syn::Ident>,
+    p: PM<4501>,
+    o: Option<PM<4502>>,
+}
+impl From<Option<syn::Ident>> for FR5 {
+    fn from(ident: Option<syn::Ident>) -> Self {
+        from_ident_seam(4500);
+        FR5 { ident, p: PM(Tok::FromIdent("p".into())), o: None }
+    }
+}
+impl Observe for FR5 {
+    fn observe(&self) -> V {
+        V::Struct("FR5".into(), vec![("ident".into(), self.ident.as_ref().map(ident_val).unwrap_or(V::None)), ("p".into(), self.p.observe()), ("o".into(), self.o.observe())])
+    }
+}
+
+#[derive(FromVariant)]
+#[darling(attributes(a), from_ident)]
+pub struct VR3 {
+    ident: syn::Ident,
+    fields: ast::Fields<FP<4603>>,
+    p: PM<4601>,
+    o: Option<PM<4602>>,
+}
+impl From<syn::Ident> for VR3 {
+    fn from(ident: syn::Ident) -> Self {
+        from_ident_seam(4600);
+        VR3 { ident, fields: ast::Fields::new(ast::Style::Unit, vec![]), p: PM(Tok::FromIdent("p".into())), o: None }
+    }
+}
+impl Observe for VR3 {
+    fn observe(&self) -> V {
+        V::Struct(
+            "VR3".into(),
+            vec![("ident".into(), ident_val(&self.ident)), ("fields".into(), self.fields.observe()), ("p".into(), self.p.observe()), ("o".into(), self.o.observe())],
+        )
+    }
+}
+
+fn tr2_map(v: TR2) -> TR2 {
+    cmap::<4710, TR2>(v)
+}
+
+#[derive(FromTypeParam)]
+#[darling(attributes(a), default, map = tr2_map)]
+pub struct TR2 {
+    ident: syn::Ident,
+    p: PM<4701>,
+    o: Option<PM<4702>>,
+}
+impl Default for TR2 {
+    fn default() -> Self {
+        container_default_seam(4700);
+        TR2 { ident: syn::Ident::new("unset", proc_macro2::Span::call_site()), p: Default::default(), o: Default::default() }
+    }
+}
+impl Observe for TR2 {
+    fn observe(&self) -> V {
+        V::Struct("TR2".into(), vec![("ident".into(), ident_val(&self.ident)), ("p".into(), self.p.observe()), ("o".into(), self.o.observe())])
+    }
+}
+
+fn di8_then(v: DI8) -> darling::Result<DI8> {
+    cthen::<4810, DI8>(v)
+}
+
+#[derive(FromDeriveInput)]
+#[darling(attributes(a), and_then = di8_then, allow_unknown_fields)]
+pub struct DI8 {
+    ident: syn::Ident,
+    generics: ast::Generics<ast::GenericParam<TR2>>,
+    data: ast::Data<VR3, FR5>,
+    p: Option<PM<4801>>,
+    #[darling(multiple)]
+    m: Vec<PM<4802>>,
+}
+impl Observe for DI8 {
+    fn observe(&self) -> V {
+        V::Struct(
+            "DI8".into(),
+            vec![
+                ("ident".into(), ident_val(&self.ident)),
+                ("generics".into(), self.generics.observe()),
+                ("data".into(), self.data.observe()),
+                ("p".into(), self.p.observe()),
+                ("m".into(), self.m.observe()),
+            ],
+        )
+    }
+}
+
 pub enum ElemInput<'a> {
     DeriveInput(&'a syn::DeriveInput),
     Field(&'a syn::Field),
@@ -740,6 +838,10 @@ pub fn run_elem_receiver(name: &str, input: &ElemInput) -> Option<Result<V, darl
         ("FR2", ElemInput::Field(f)) => ob(FR2::from_field(f)),
         ("FR3", ElemInput::Field(f)) => ob(FR3::from_field(f)),
         ("FR4", ElemInput::Field(f)) => ob(FR4::from_field(f)),
+        ("FR5", ElemInput::Field(f)) => ob(FR5::from_field(f)),
+        ("VR3", ElemInput::Variant(v)) => ob(VR3::from_variant(v)),
+        ("TR2", ElemInput::TypeParam(t)) => ob(TR2::from_type_param(t)),
+        ("DI8", ElemInput::DeriveInput(d)) => ob(DI8::from_derive_input(d)),
         ("DI7", ElemInput::DeriveInput(d)) => ob(DI7::from_derive_input(d)),
         ("VR1", ElemInput::Variant(v)) => ob(VR1::from_variant(v)),
         ("VR2", ElemInput::Variant(v)) => ob(VR2::from_variant(v)),
